@@ -239,12 +239,54 @@ Layout(b) ==
                         Rep(<<U("fragment_absolute_time", 8), U("fragment_duration", 8)>>)>>)
     [] b = "cdat" -> L("cdat", FALSE, {0}, {}, <<Rep(<<U("data", 1)>>)>>)
     [] b = "udta" -> L("udta", FALSE, {0}, {}, <<Kids(<<"zzzz">>)>>)
+    [] b = "avc3" -> L("avc3", FALSE, {0}, {}, <<Res(Zeros(6)), U("data_reference_index", 2), Res(Zeros(2)), Res(Zeros(2)), Res(Zeros(12)), U("width", 2), U("height", 2),
+                        U("horizresolution", 4), U("vertresolution", 4), Res(Zeros(4)), U("frame_count", 2), Const("compressorname_len", <<0>>), Const("compressorname_pad", Zeros(31)),
+                        Const("depth", <<0, 24>>), Res(<<255, 255>>), Kids(<<"avcC", "btrt">>)>>)
+    [] b = "hev1" -> L("hev1", FALSE, {0}, {}, <<Res(Zeros(6)), U("data_reference_index", 2), Res(Zeros(2)), Res(Zeros(2)), Res(Zeros(12)), U("width", 2), U("height", 2),
+                        U("horizresolution", 4), U("vertresolution", 4), Res(Zeros(4)), U("frame_count", 2), Const("compressorname_len", <<0>>), Const("compressorname_pad", Zeros(31)),
+                        Const("depth", <<0, 24>>), Res(<<255, 255>>), Kids(<<"hvcC", "pasp">>)>>)
+    [] b = "av01" -> L("av01", FALSE, {0}, {}, <<Res(Zeros(6)), U("data_reference_index", 2), Res(Zeros(2)), Res(Zeros(2)), Res(Zeros(12)), U("width", 2), U("height", 2),
+                        U("horizresolution", 4), U("vertresolution", 4), Res(Zeros(4)), U("frame_count", 2), Const("compressorname_len", <<0>>), Const("compressorname_pad", Zeros(31)),
+                        Const("depth", <<0, 24>>), Res(<<255, 255>>), Kids(<<"av1C", "colr">>)>>)
+    [] b = "vp08" -> L("vp08", FALSE, {0}, {}, <<Res(Zeros(6)), U("data_reference_index", 2), Res(Zeros(2)), Res(Zeros(2)), Res(Zeros(12)), U("width", 2), U("height", 2),
+                        U("horizresolution", 4), U("vertresolution", 4), Res(Zeros(4)), U("frame_count", 2), Const("compressorname_len", <<0>>), Const("compressorname_pad", Zeros(31)),
+                        Const("depth", <<0, 24>>), Res(<<255, 255>>), Kids(<<"vpcC">>)>>)
+    [] b = "vp09" -> L("vp09", FALSE, {0}, {}, <<Res(Zeros(6)), U("data_reference_index", 2), Res(Zeros(2)), Res(Zeros(2)), Res(Zeros(12)), U("width", 2), U("height", 2),
+                        U("horizresolution", 4), U("vertresolution", 4), Res(Zeros(4)), U("frame_count", 2), Const("compressorname_len", <<0>>), Const("compressorname_pad", Zeros(31)),
+                        Const("depth", <<0, 24>>), Res(<<255, 255>>), Kids(<<"vpcC", "btrt">>)>>)
+    [] b = "dpnd" -> L("dpnd", FALSE, {0}, {}, <<Rep(<<U("track_ID", 4)>>)>>)
+    [] b = "font" -> L("font", FALSE, {0}, {}, <<Rep(<<U("track_ID", 4)>>)>>)
+    [] b = "hind" -> L("hind", FALSE, {0}, {}, <<Rep(<<U("track_ID", 4)>>)>>)
+    [] b = "ipir" -> L("ipir", FALSE, {0}, {}, <<Rep(<<U("track_ID", 4)>>)>>)
+    [] b = "mpod" -> L("mpod", FALSE, {0}, {}, <<Rep(<<U("track_ID", 4)>>)>>)
+    [] b = "subt" -> L("subt", FALSE, {0}, {}, <<Rep(<<U("track_ID", 4)>>)>>)
+    [] b = "sync" -> L("sync", FALSE, {0}, {}, <<Rep(<<U("track_ID", 4)>>)>>)
+    [] b = "vdep" -> L("vdep", FALSE, {0}, {}, <<Rep(<<U("track_ID", 4)>>)>>)
+    [] b = "vplx" -> L("vplx", FALSE, {0}, {}, <<Rep(<<U("track_ID", 4)>>)>>)
+    [] b = "desc" -> L("desc", FALSE, {0}, {}, <<Kids(<<"zzzz", "free">>)>>)
+    [] b = "iods" -> L("iods", FALSE, {0}, {}, <<Rep(<<U("data", 1)>>)>>)
 
 \* ASCII codes of the four-character codes used above (TLA+ strings cannot be indexed)
 TypeCode(t) ==
   CASE t = "CoLL" -> <<67, 111, 76, 76>>
     [] t = "Ctoo" -> <<169, 116, 111, 111>>
     [] t = "SmDm" -> <<83, 109, 68, 109>>
+    [] t = "avc3" -> <<97, 118, 99, 51>>
+    [] t = "hev1" -> <<104, 101, 118, 49>>
+    [] t = "av01" -> <<97, 118, 48, 49>>
+    [] t = "vp08" -> <<118, 112, 48, 56>>
+    [] t = "vp09" -> <<118, 112, 48, 57>>
+    [] t = "dpnd" -> <<100, 112, 110, 100>>
+    [] t = "font" -> <<102, 111, 110, 116>>
+    [] t = "hind" -> <<104, 105, 110, 100>>
+    [] t = "ipir" -> <<105, 112, 105, 114>>
+    [] t = "mpod" -> <<109, 112, 111, 100>>
+    [] t = "subt" -> <<115, 117, 98, 116>>
+    [] t = "sync" -> <<115, 121, 110, 99>>
+    [] t = "vdep" -> <<118, 100, 101, 112>>
+    [] t = "vplx" -> <<118, 112, 108, 120>>
+    [] t = "desc" -> <<100, 101, 115, 99>>
+    [] t = "iods" -> <<105, 111, 100, 115>>
     [] t = "ac-3" -> <<97, 99, 45, 51>>
     [] t = "alou" -> <<97, 108, 111, 117>>
     [] t = "av1C" -> <<97, 118, 49, 67>>
